@@ -110,6 +110,22 @@ Proof.
   cbn [fold_left]. rewrite calcPMTSectionLength_step. apply IH.
 Qed.
 
+(* calcPMTProgramInfoLength (data_pmt.go; no caller in the package): the same walk as calcPMTSectionLength started from 2
+   instead of 4, so the section length is the program info length plus the two bytes of pcr_pid, in uint16 arithmetic. *)
+Lemma calcPMTProgramInfoLength_fold l : forall a b, a = (b + 2) mod 65536 ->
+  fold_left (calcPMTSectionLength_loop1 cdl) l a = (fold_left (calcPMTProgramInfoLength_loop1 cdl) l b + 2) mod 65536.
+Proof.
+  induction l as [|es l IH]; intros a b Hab; cbn [fold_left]; [exact Hab|].
+  apply IH. unfold calcPMTSectionLength_loop1, calcPMTProgramInfoLength_loop1. cbv zeta. subst a. rewrite Zplus_mod_idemp_l. rewrite <- !Z.add_assoc. rewrite Zplus_mod_idemp_l. symmetry. rewrite Zplus_mod_idemp_l. rewrite <- !Z.add_assoc. rewrite Zplus_mod_idemp_l. f_equal; ring.
+Qed.
+
+Lemma calcPMTProgramInfoLength_section d :
+  calcPMTSectionLength cdl d = (calcPMTProgramInfoLength cdl d + 2) mod 65536.
+Proof.
+  unfold calcPMTSectionLength, calcPMTProgramInfoLength. apply calcPMTProgramInfoLength_fold.
+  change (4 mod 65536) with 4. change (2 mod 65536) with 2. zmod_eq.
+Qed.
+
 Definition res_opt {A} (r : res A) : option A := match r with Ok a => Some a | _ => None end.
 
 Lemma calcPSISectionLength_is_model s :
